@@ -13,6 +13,7 @@ and reports a semantic difference itself).  The hypothesis itself is probed on t
 (capture probe)."""
 import json
 import re
+import time
 
 import core
 import lib
@@ -55,11 +56,13 @@ def _case(b, a):
 
 
 def run_pass(ctx, runs):
+    t0 = time.time()
     st = {"compared": 0, "equal_and_hypothesis_holds": 0, "hypothesis_failed": 0, "not_observed": 0,
           "not_modelled": 0, "coq_no_answer": 0, "aliases_generated": 0, "programs_with_alias": 0,
           "programs_with_alias_reuse": 0}
     cases, seen = [], {}
-    for run in runs:
+    extra, st["extra_programs"] = U.extra_runs(ctx, lib)
+    for run in list(runs) + extra:
         pair = U.snapshot_pair(run, BEFORE, PASS)
         if pair is None:
             st["not_observed"] += 1
@@ -80,6 +83,7 @@ def run_pass(ctx, runs):
     probe = lib.run_tasks([{"kind": "capture_probe", "which": "cr", "timeout": 60}], timeout=60, jobs=1)[0]
     pcase = _probe_case(probe)
     U.run_cases(ctx, lib, "pcr", cases + ([pcase] if pcase else []))
+    reported = 0
     for c in cases:
         ctx.coverage["obligations"] += c["n"]
         st["compared"] += c["n"]
@@ -96,6 +100,20 @@ def run_pass(ctx, runs):
             continue
         eq, wf, d = c["res"]
         if not eq or not c["untouched"]:
+            st["mismatches"] = st.get("mismatches", 0) + c["n"]
+            if reported >= 3:
+                continue
+            reported += 1
+            sem = U.semantic_search(ctx, lib, run, b, a, f"sem_{PASS}_{cases.index(c)}")
+            if sem:
+                ctx.violation(f"pass:{PASS}:{run['text']}:{json.dumps(run['opts'], sort_keys=True)}",
+                              {"program_text": run["text"], "options": run["opts"], "pass": PASS, "n": sem[0], "observed": f"E({sem[1]})",
+                               "before_pass": sem[2], "after_pass": sem[3],
+                               "before_pass_program": [U.ga_text(x) for x in b["init"]] + ["while true:"] + [U.ga_text(x) for x in b["body"]],
+                               "after_pass_program": [U.ga_text(x) for x in a["init"]] + ["while true:"] + [U.ga_text(x) for x in a["body"]]},
+                              f"after {PASS} (options {run['opts']}) E({sem[1]}) after {sem[0]} iterations is {sem[3]}, but {sem[2]} before the "
+                              f"pass (reference semantics on Polar's two snapshots)\n{run['text']}")
+                continue
             allp = a["init"] + a["body"]
             what = (f"{PASS}: Polar's output differs from the model PassCondReduce.cr_prog (counter {c['k0']}) "
                     + (f"at assignment {d} (initial block then loop body)" if not eq else "in the loop guard")
@@ -118,6 +136,7 @@ def run_pass(ctx, runs):
         ctx.coverage["discharged"] += c["n"]
     _probe_report(ctx, probe, pcase, st)
     ctx.coverage.setdefault("pass_models", {})[PASS] = st
+    print(f"  [pass {PASS}] " + " ".join(f"{k}={v}" for k, v in st.items() if isinstance(v, int)) + f" wall={time.time() - t0:.1f}s", flush=True)
     ctx.coverage["trusted_base"].append(
         "harness/pass_condreduce.py, flatpass_util.py, core.ga_coq: Polar's MultiAssignTransformer/ConditionsReducer snapshots -> Coq "
         "terms, counter value read from the first generated alias name; the model's store compares atoms structurally on sympy-expanded "
